@@ -164,7 +164,7 @@ def ens_validate_frame(I, env, res):
 
 
 def targets(tier):
-    return find_targets() + removed_targets() + [
+    return find_targets() + removed_targets() + is_fresh_targets() + [
         Target("fresh.validate_meta", "mypy.build:validate_meta", setup_validate,
                ensures=[("accepted-only-if-recorded-facts-hold", ens_validate), ("record-restamped-only-on-equal-hash", ens_validate_frame)],
                raises=(AssertionError,), overrides=dict(OVERRIDES, **{"contracts.fresh:FakeFsCache.hash_digest": hash_contract}), field_types=FT,
@@ -367,3 +367,42 @@ def removed_targets():
     return [Target("fresh.exist_removed_submodules.iteration", "mypy.build:exist_removed_submodules", setup_removed_iter, loop_body=("for dep in dependencies", None),
                    ensures=[("stale-iff-submodule-of-a-dependency-went-missing", ens_removed_iter)], raises=(), overrides=ov, field_types=ft,
                    note="one generic iteration; the module finder is an arbitrary function")]
+
+
+# ------------------------------------------------------------------ State.is_fresh
+
+SDO = z3.Function("suppressed_deps_opts_now", IntS, BytesS)
+
+
+def setup_is_fresh(I):
+    st = I.make(TObj(B.State), "state")
+    return {"args": [st], "state": st}
+
+
+def sdo_contract(I, args, kwargs):
+    I.ctx.ghost["sdo_called"] = True
+    return SBytes(SDO(z3.IntVal(0)))
+
+
+def ens_is_fresh(I, env, res):
+    """fresh <=> a record exists, the dependency list is the recorded one, and (unless in fine-grained
+    mode) the import-handling options of the suppressed dependencies are the recorded ones"""
+    st = env["state"]
+    meta = I.getattr(st, "meta")
+    r = res.t if isinstance(res, SBool) else None
+    if r is None:
+        return z3.BoolVal(False)
+    if meta is NONE:
+        return z3.Not(r)
+    fgi = I.getattr(I.getattr(st, "options"), "fine_grained_incremental").t
+    same_deps = I.getattr(st, "dependencies").t == I.getattr(meta, "dependencies").t
+    same_opts = I.getattr(meta, "suppressed_deps_opts").t == SDO(z3.IntVal(0))
+    return r == z3.And(same_deps, z3.Or(fgi, same_opts))
+
+
+def is_fresh_targets():
+    ft = dict(FT)
+    ft.update({("State", "meta"): TOpt(TObj(C.CacheMeta)), ("State", "dependencies"): TSeq(TStr()), ("State", "options"): TObj(Options),
+               ("Options", "fine_grained_incremental"): TBool()})
+    return [Target("fresh.State.is_fresh", "mypy.build:State.is_fresh", setup_is_fresh, ensures=[("fresh-iff-recorded-dependencies-and-import-options-hold", ens_is_fresh)],
+                   raises=(), overrides={"mypy.build:State.suppressed_deps_opts": sdo_contract}, field_types=ft)]
